@@ -777,6 +777,9 @@ impl VirtualFileSystem for Memfs {
         }
         for entry in self.entries(path)?.min_depth(1).sort_by_name().dirs() {
             let entry = entry?;
+            if entry.is_symlink() {
+                continue; // link exclusion like is_dir and is_file
+            }
             paths.push(entry.path_buf());
         }
 
@@ -810,6 +813,9 @@ impl VirtualFileSystem for Memfs {
         }
         for entry in self.entries(path)?.min_depth(1).sort_by_name().files() {
             let entry = entry?;
+            if entry.is_symlink() {
+                continue; // link exclusion like is_dir and is_file
+            }
             paths.push(entry.path_buf());
         }
 
@@ -1253,6 +1259,9 @@ impl VirtualFileSystem for Memfs {
         }
         for entry in self.entries(path)?.min_depth(1).max_depth(1).sort_by_name().dirs() {
             let entry = entry?;
+            if entry.is_symlink() {
+                continue; // link exclusion like is_dir and is_file
+            }
             paths.push(entry.path_buf());
         }
         Ok(paths)
@@ -1348,6 +1357,9 @@ impl VirtualFileSystem for Memfs {
         }
         for entry in self.entries(path)?.min_depth(1).max_depth(1).sort_by_name().files() {
             let entry = entry?;
+            if entry.is_symlink() {
+                continue; // link exclusion like is_dir and is_file
+            }
             paths.push(entry.path_buf());
         }
         Ok(paths)
